@@ -7,7 +7,9 @@ import (
 	"fmt"
 	"hash/fnv"
 	"os"
+	"path/filepath"
 	"sort"
+	"strconv"
 	"strings"
 	"time"
 )
@@ -268,6 +270,45 @@ func LoadFindings(path string) ([]Finding, error) {
 var KnownActive = map[string]bool{}
 
 func IsKnown(id string) bool { return KnownActive[id] }
+
+// Known findings whose signature describes a class of deviations are additionally pinned to the
+// individual inputs on which the finding was observed when the list was made: the file
+// known_inputs/<property>/<finding>.txt holds one 64-bit hash (hex) per input. KnownInput reports whether
+// the input is listed; a finding without such a file is not pinned. The lists are written only by
+// tools/mkknowninputs.sh (which runs the checks with VERIF_RECORD_KNOWN set), never by a check run.
+var knownInputs = map[string]map[uint64]bool{}
+
+func inputHash(s string) uint64 {
+	h := fnv.New64a()
+	h.Write([]byte(s))
+	return h.Sum64()
+}
+
+func KnownInput(prop, id, input string) bool {
+	h := inputHash(input)
+	if dir := os.Getenv("VERIF_RECORD_KNOWN"); dir != "" {
+		os.MkdirAll(filepath.Join(dir, prop), 0o755)
+		if f, err := os.OpenFile(filepath.Join(dir, prop, fmt.Sprintf("%s.%d.part", id, os.Getpid())), os.O_APPEND|os.O_CREATE|os.O_WRONLY, 0o644); err == nil {
+			fmt.Fprintf(f, "%016x\n", h)
+			f.Close()
+		}
+		return true
+	}
+	key := prop + "/" + id
+	set, loaded := knownInputs[key]
+	if !loaded {
+		if b, err := os.ReadFile(filepath.Join(Root(), "known_inputs", prop, id+".txt")); err == nil {
+			set = map[uint64]bool{}
+			for _, l := range strings.Fields(string(b)) {
+				if v, err := strconv.ParseUint(l, 16, 64); err == nil {
+					set[v] = true
+				}
+			}
+		}
+		knownInputs[key] = set
+	}
+	return set == nil || set[h]
+}
 
 func sortedKeys(m map[string]int64) []string {
 	var ks []string
